@@ -106,16 +106,44 @@ class Sandbox(object):
     def __enter__(self):
         self.old = os.getcwd()
         self.dir = tempfile.mkdtemp(prefix="vf-c16-")
+        self.env = {k: os.environ.get(k) for k in ("HOME", "VFC16DIR")}
+        os.environ["HOME"] = self.dir
+        os.environ["VFC16DIR"] = self.dir
         return self
 
     def __exit__(self, *a):
         os.chdir(self.old)
+        for k, v in self.env.items():
+            if v is None:
+                os.environ.pop(k, None)
+            else:
+                os.environ[k] = v
         shutil.rmtree(self.dir, ignore_errors=True)
 
-    def spell(self, rng, name, how=None):
-        """(argument to pass, absolute path) for one of the four spellings."""
-        how = how if how is not None else int(rng.integers(0, 4))
+    def spell(self, rng, name, how=None, expanding=False):
+        """(argument to pass, absolute path) for one of the spellings of the same file.  expanding: the exporter documents
+        user / environment-variable expansion and normalisation of its path (export_pickle), so those spellings count too."""
+        how = how if how is not None else int(rng.integers(0, 11 if expanding else 6))
         ab = os.path.join(self.dir, name)
+        os.makedirs(os.path.join(self.dir, "sub"), exist_ok=True)
+        if how in (4, 5):
+            # through an existing directory and back: an ordinary relative / absolute spelling
+            if how == 4:
+                return os.path.join(self.dir, "sub", "..", name), ab, "str_abs_via_subdir"
+            os.chdir(self.dir)
+            return Path("sub") / ".." / name, ab, "path_rel_via_subdir"
+        how = how - 2 if how > 5 else how
+        if how == 4:
+            return "~/" + name, ab, "str_home"
+        if how == 5:
+            return Path("~") / name, ab, "path_home"
+        if how == 6:
+            return "$VFC16DIR/" + name, ab, "str_envvar"
+        if how == 7:
+            return os.path.join(self.dir, "no_such_dir", "..", name), ab, "str_abs_dotdot"
+        if how == 8:
+            os.chdir(self.dir)
+            return Path("no_such_dir") / ".." / name, ab, "path_rel_dotdot"
         if how == 0:
             return ab, ab, "str_abs"
         if how == 1:
@@ -256,7 +284,7 @@ def w_pickle(ctx, rng, i):
     obj, kind = picklable(rng, i)
     with Sandbox() as sb:
         ext = [".pkl", ".pkl.gz"][(i // 14) % 2]
-        arg, ab, sp = sb.spell(rng, NAMES[rng.integers(0, len(NAMES))] + ext)
+        arg, ab, sp = sb.spell(rng, NAMES[rng.integers(0, len(NAMES))] + ext, expanding=True)
         dg = digest(obj)
         ok = watched_export(ctx, mio.export_pickle, obj, arg, ab, None if rng.random() < 0.5 else False, ("pickle" + ext, sp))
         if digest(obj) != dg:
@@ -341,7 +369,7 @@ def w_overwrite(ctx, rng, i):
     with Sandbox() as sb:
         name = "out" + ext if (i // 5) % 2 == 0 else NAMES[rng.integers(0, len(NAMES))] + ext       # a fixed name recurs across cases and directories
         for step in range(int(rng.integers(2, 9))):
-            arg, ab, sp = sb.spell(rng, name)
+            arg, ab, sp = sb.spell(rng, name, expanding=which in (2, 3))
             ow = [None, False, True][rng.integers(0, 3)]
             existed = os.path.exists(ab)
             if step == 0 and rng.random() < 0.5:
